@@ -159,7 +159,12 @@ def _sf2(args):
     # thanks to https://stackoverflow.com/a/16618842/1710603
     try:
         return sigma_filter(*args)
-    except Exception as e:
+    except BaseException as e:
+        # BaseException, not Exception: a stripe that ends with SystemExit,
+        # KeyboardInterrupt or any other non-Exception would otherwise take
+        # its pool worker down without a result and without breaking the
+        # barrier, and both the other stripes and the parent's get() would
+        # wait for ever
         import traceback
         logging.warn(e)
         # the other stripes may be (or may come to be) waiting for this one at
